@@ -124,6 +124,33 @@ def loss_case(rng):
     return "(sim (global 65000 1.1.1.1) (peers (a 10.0.0.1 65001) (b 10.0.0.2 65002) (c 10.0.0.3 65003)) (steps %s))" % " ".join(steps)
 
 
+def latedown_case(rng):
+    """dynamic neighbours (peer group + prefix): the session-down event of a dynamic peer is handled LATE -- its FSM goroutine had
+    released the read lock of shared.mu and waited for the write lock (handleFSMMessage's deferred stopNeighbor) while the
+    management loop deleted the peer and, most of the time, the remote speaker connected again. Whatever is registered for
+    the address then stays registered, DeletePeer / Stop still reach it, and Stop returns."""
+    steps = ["(up b)", "(up a now)"]
+    for _ in range(rng.choice([0, 1, 3])):
+        steps.append("(upd a (a 10.%d.0.0/24 0 (65001) - - 0 () - ()))" % rng.randrange(1, 5))
+    steps += ["(handle a)"]
+    r = rng.random()
+    back = True
+    if r < 0.7:
+        steps += ["(delpeer a)", "(up a now)"]
+    elif r < 0.85:
+        steps += ["(delpeer a)"]
+        back = False
+    else:
+        steps += ["(close a)", "(wait)", "(up a now)"]      # the peer went away by itself and is back: the late event is a duplicate
+    if back and rng.random() < 0.5:
+        steps.append("(upd a (a 10.7.0.0/24 0 (65001) - - 0 () - ()))")
+    steps += ["(latedown a)", "(listed a)"]
+    if back and rng.random() < 0.5:
+        steps += ["(delpeer a)", "(listed a)"]
+        back = None
+    return "(sim (global 65000 1.1.1.1 sync dyn=65001) (peers (a 10.0.0.1 65001 dyn) (b 10.0.0.2 65002)) (steps %s))" % " ".join(steps), back
+
+
 def holdexpiry_case(rng):
     """async: a peer with graceful restart goes silent, our hold timer runs out (NOTIFICATION, connection closed by us, the
     receiving goroutine reports its read error at the same moment), the peer comes back; at the end the server stops.
@@ -188,6 +215,15 @@ def classify(line, out):
     counts = [int(x.split(")")[0]) for x in body.split("(goroutines ")[1:]]
     if len(counts) >= 2 and any(c > counts[0] for c in counts[1:]):
         return ("goroutine-leak-after-delete-peer", "goroutines before the peer was added / after each DeletePeer: %s" % counts)
+    if " dyn=" in line:
+        # the late session-down family: (listed a k) after the late event, and after a final DeletePeer
+        ls = [int(x.split(")")[0].split()[-1]) for x in body.split("(listed ")[1:]]
+        deleted_again = line.rstrip(") ").endswith("(delpeer a) (listed a")
+        reconnected = "(up a now) (" in line.split("(handle a)")[1]
+        want = [1 if reconnected else 0] + ([0] if deleted_again else [])
+        if ls != want:
+            return ("late-session-down-unregisters-the-new-peer" if ls and ls[0] < want[0] else "late-session-down-peer-registration",
+                    "ListPeer for the address says %s after the late session-down event%s; expected %s" % (ls, " and after DeletePeer" if deleted_again else "", want))
     for m in ("(addpeer-error", "(passconn-error", "(unknown-step"):
         if m in body:
             return None
@@ -217,6 +253,7 @@ def run(ctx):
     lines += [("peer-lifecycle", lifecycle_case(rng)) for _ in range(n // 2)]
     lines += [("prefix-limit", limit_case(rng)) for _ in range(n // 4)]
     lines += [("hold-timer-expiry-with-graceful-restart", holdexpiry_case(rng)) for _ in range(n)]
+    lines += [("dynamic-neighbour-late-session-down", latedown_case(rng)[0]) for _ in range(n // 4)]
     found = {}
     races = 0
     results = 0
